@@ -149,3 +149,52 @@ Example C02_nonvacuous :
   = [(0%Z, []); (0%Z, []); (0%Z, []); (3%Z, []); (0%Z, [(7, 11%N)]);
      (0%Z, []); (0%Z, []); (0%Z, []); (0%Z, [(8, 21%N); (8, 22%N); (8, ENDED)]); (4%Z, [])].
 Proof. vm_compute. reflexivity. Qed.
+
+(* ---------------------------------------------------------------------------------------------------------
+   Second model: whole apps under a Core, in the reference semantics coq/Rt/Ref.v + RefCore.v (handler
+   tables over the task/command language of coq/Rt/Lang.v: requests, streams, joins, select, spawned
+   tasks, legacy capability requests awaited in command tasks, any nesting of combinators; histories of
+   events, resolutions and drops).  The implementation is compared with this semantics call by call on
+   every run (RC_ok, engines/rt_eng.py rc_stage).  Proved for every app, every history and every state the
+   history reaches: request ids are never reused, at most one waiter exists per id, and a resolution
+   is received - unchanged, in the variable the task named - by exactly the strand that issued the request,
+   while no other strand of any command of the app changes. *)
+From Crux Require Rt.Lang Rt.Rt Rt.Host Rt.Ref Rt.RefCore Rt.RefCoreProps.
+
+Theorem C02_ref_one_waiter_per_request : forall hs st,
+  RefCoreProps.reach hs st ->
+  forall rid, RefCoreProps.cw_cmds rid (RefCore.ks_cmds st) <= 1 /\
+              (1 <= RefCoreProps.cw_cmds rid (RefCore.ks_cmds st) -> rid < RefCore.ks_n st).
+Proof. exact RefCoreProps.reach_Inv. Qed.
+
+Theorem C02_ref_ids_fresh : forall hs st,
+  RefCoreProps.reach hs st -> forall rid, RefCore.ks_n st <= rid -> RefCoreProps.cw_cmds rid (RefCore.ks_cmds st) = 0.
+Proof. exact RefCoreProps.fresh_ids. Qed.
+
+Theorem C02_ref_delivery_exact : forall hs st pre s post rid x k v,
+  RefCoreProps.reach hs st ->
+  RefCoreProps.strands_of (RefCore.ks_cmds st) = pre ++ s :: post ->
+  Ref.s_leaf s = Ref.RReq rid x k ->
+  RefCoreProps.strands_of (snd (RefCore.kdeliver rid v (RefCore.ks_cmds st))) =
+  pre ++ Ref.mkRS (Ref.s_uid s) (Rt.setv x v (Ref.s_env s)) (Ref.RRun k) (Ref.s_stack s) :: post.
+Proof. exact RefCoreProps.delivery_exact. Qed.
+
+(* non-vacuity: an app with two look-alike handlers; after two events two strands wait on two different
+   ids for the same operation; the hypotheses of the delivery theorem hold of the second one *)
+Definition C02_demo_app : Host.handlers := [(1, Lang.CNew (Lang.TReq 5 (Lang.K 0) 1 (Lang.TEmit 100 (Lang.V 1) Lang.TRet)) [])].
+Definition C02_demo_after (st : RefCore.kst) : RefCore.kst :=
+  match RefCore.kstep C02_demo_app (Lang.AEvent 1 7) st with Some (_, s) => s | None => st end.
+Definition C02_demo_st1 : RefCore.kst := Eval vm_compute in C02_demo_after RefCore.ks0.
+Definition C02_demo_st2 : RefCore.kst := Eval vm_compute in C02_demo_after C02_demo_st1.
+Example C02_ref_nonvacuous :
+  exists s0 s1, RefCoreProps.reach C02_demo_app C02_demo_st2 /\
+    RefCoreProps.strands_of (RefCore.ks_cmds C02_demo_st2) = [s0] ++ s1 :: [] /\
+    Ref.s_leaf s0 = Ref.RReq 0 1 (Lang.TEmit 100 (Lang.V 1) Lang.TRet) /\
+    Ref.s_leaf s1 = Ref.RReq 1 1 (Lang.TEmit 100 (Lang.V 1) Lang.TRet).
+Proof.
+  exists (Ref.mkRS 0 [7] (Ref.RReq 0 1 (Lang.TEmit 100 (Lang.V 1) Lang.TRet)) []).
+  exists (Ref.mkRS 0 [7] (Ref.RReq 1 1 (Lang.TEmit 100 (Lang.V 1) Lang.TRet)) []).
+  split; [|split; [|split]]; try reflexivity.
+  apply (RefCoreProps.reach_step' _ (Lang.AEvent 1 7) C02_demo_st1); [|vm_compute; reflexivity].
+  apply (RefCoreProps.reach_step' _ (Lang.AEvent 1 7) RefCore.ks0); [apply RefCoreProps.reach0 | vm_compute; reflexivity].
+Qed.
